@@ -130,6 +130,7 @@ Spd3(s) ==
         tRFC |-> [x1 |-> T(W(B(s, 25), B(s, 24)), 0), x2 |-> 0, x4 |-> 0],
         tWTR |-> T(B(s, 26), 0),
         tFAW |-> T(W(Lo(B(s, 28)), B(s, 29)), 0),
+        fawck |-> 0,                               \* DDR3: tFAW is a nanosecond value only
         tCCD |-> 0]
 
 (* Annex L (DDR4): byte 17 timebases (only MTB 125 ps / FTB 1 ps defined); 18 tCKAVGmin, 24 tAAmin, 25 tRCDmin,
@@ -152,6 +153,9 @@ Spd4(s) ==
         tRFC |-> [x1 |-> T(W(B(s, 31), B(s, 30)), 0), x2 |-> T(W(B(s, 33), B(s, 32)), 0), x4 |-> T(W(B(s, 35), B(s, 34)), 0)],
         tWTR |-> T(W(Hi(B(s, 43)), B(s, 45)), 0),
         tFAW |-> T(W(Lo(B(s, 36)), B(s, 37)), 0),
+        \* JESD79-4: tFAW = max(N nCK, x ns) with N by page size: 16 (1/2 KB), 20 (1 KB), 28 (2 KB).  Page size = 2^columns x
+        \* device width / 8, columns = 9 + byte 5 (2:0), device width = 4 * 2^(byte 12 (2:0)): log2(page bytes) = columns + code - 1
+        fawck |-> (LET pl == 9 + (B(s, 5) % 8) + (B(s, 12) % 8) - 1 IN IF pl <= 9 THEN 16000 ELSE IF pl = 10 THEN 20000 ELSE 28000),
         tCCD |-> T(B(s, 40), B(s, 117))]
 
 SpdOk(s) == Len(s) >= 3 /\ ((B(s, 2) = 11 /\ Spd3Ok(s)) \/ (B(s, 2) = 12 /\ Spd4Ok(s)))
@@ -159,12 +163,13 @@ SpdDecode(s) == IF B(s, 2) = 11 THEN Spd3(s) ELSE Spd4(s)
 \* JEDEC average periodic refresh interval (0..85 C): 7.8 us = 64 ms / 8192; DDR4 fine granularity 2x / 4x halves / quarters it
 SpdRefi(frm) == IF frm = "2x" THEN 3906250 ELSE IF frm = "4x" THEN 1953125 ELSE 7812500
 
-(* The SPD contents as a sequence of declared entries in MinNames order (nanosecond parts only: clock-count minimums
-   are not stored in SPD; they are checked against the module's declaration like for any other module). *)
+(* The SPD contents as a sequence of declared entries in MinNames order (nanosecond parts; the only clock-count minimum that
+   follows from SPD contents is DDR4's page-size dependent tFAW; the others are checked against the module's declaration like
+   for any other module). *)
 SpdDecl(sp, frm) ==
     LET rfc == IF frm = "2x" THEN sp.tRFC.x2 ELSE IF frm = "4x" THEN sp.tRFC.x4 ELSE sp.tRFC.x1
         E(ps) == <<0, ps, IF ps > 0 THEN 1 ELSE 0>>
-    IN <<E(sp.tRP), E(sp.tRCD), E(sp.tWR), E(rfc), E(sp.tWTR), E(sp.tFAW), E(sp.tCCD), E(sp.tRRD), E(sp.tRAS), <<0, 0, 0>>>>
+    IN <<E(sp.tRP), E(sp.tRCD), E(sp.tWR), E(rfc), E(sp.tWTR), <<sp.fawck, sp.tFAW, 1>>, E(sp.tCCD), E(sp.tRRD), E(sp.tRAS), <<0, 0, 0>>>>
 
 (* Clauses of a module built from SPD bytes, against the SPD contents.  tRC is checked twice: against tRAS + tRP of
    the SPD (through ConvBad) and against the SPD's own tRCmin field. *)
